@@ -2,7 +2,7 @@ SPECIFICATION SimSpec
 CONSTANTS
   Pieces = {0, 1, 2}
   Consumers = {"k1", "k2", "k3"}
-  Prios = {0, 1, 2}
+  Prios = {0, 1, 2, 9}
   MaxOps = 14
   Dev = {}
 INVARIANTS Dump NoLostWakeup PrioConserved EntryIffWanted
